@@ -21,8 +21,10 @@ _SAFE = {
     '<U5': ['a', 'b', 'ab', 'abc', 'zz', 'A', 'hello', 'cd', 'xy', 'Q', 'w', 'pqr'],
 }
 SAFE_DTYPES = list(_SAFE)
-_COL_STRS = ['a', 'b', 'c', 'd', 'e', 'f', 'g', 'aa', 'ab', 'B', 'zz', 'cc', 'p', 'q', 'r', 's', 't', 'u', 'v', 'w']
-_ROW_STRS = ['x', 'y', 'z', 'k', 'm', 'n', 'xx', 'yy', 'K', 'row', 'o', 'h', 'i', 'j']
+# (pairwise distinct ignoring case: SQL column names are case-insensitive)
+_COL_STRS = ['a', 'b', 'c', 'd', 'e', 'f', 'g', 'aa', 'ab', 'Bx', 'zz', 'cc', 'p', 'q', 'r', 's', 't', 'u', 'v', 'w']
+# ('j' alone is read back as the complex number 1j by the text parser: C16's ambiguity class, not generated)
+_ROW_STRS = ['x', 'y', 'z', 'k', 'm', 'n', 'xx', 'yy', 'K', 'row', 'o', 'h', 'ii', 'jk']
 _BUS_LABELS = ['f1', 'f2', 'alpha', 'b', 'Z', 'tab', 'g', 'mm', 'x9', 'c', 'data', 'q', 'h7', 'w']
 
 
@@ -44,6 +46,10 @@ def table_spec(rng, fmt, name):
     nc = rng.randint(1, 4)
     rk = rng.choice(['auto', 'str', 'int', 'hier2', 'str', 'negint'])
     ck = rng.choice(['str', 'str', 'str', 'hier2'])
+    if rk == 'auto' and nc == 1 and fmt in ('zip_csv', 'zip_tsv'):
+        # a one-column text file read with index_depth=0 raises IndexError in Frame.from_delimited under
+        # NumPy 2 (single-table reading: C16's domain), so the class is not generated here
+        nc = 2
     if rk == 'hier2':
         rows = _tree2(nr, rng)
     elif rk == 'str':
@@ -107,7 +113,7 @@ DEFAULT_CONFIG = {'index_depth': 0, 'columns_depth': 1, 'include_index': True, '
 
 READ_OPS = ['loc', 'loc', 'loc_list', 'loc_slice', 'loc_bool', 'getitem', 'getitem_list', 'iloc', 'iloc', 'iloc_list',
             'iloc_slice', 'iloc_bool', 'items', 'values', 'get', 'get', 'head', 'tail', 'iter_element']
-PASSIVE_OPS = ['status', 'shapes', 'nbytes', 'len', 'keys', 'iter', 'contains', 'reversed', 'mloc']
+PASSIVE_OPS = ['status', 'shapes', 'nbytes', 'len', 'keys', 'iter', 'contains', 'reversed']
 DERIVE_OPS = ['drop_loc', 'drop_iloc', 'reindex', 'sort_index', 'sort_index']
 
 
